@@ -124,6 +124,11 @@ Definition mused_list (st : lst) : list nat :=
   (fix go (l : list bool) (i : nat) : list nat :=
      match l with [] => [] | b :: r => if b then i :: go r (S i) else go r (S i) end) (l_mused st) 0.
 
+(* M registers remembered as scratch of array measurements (until the flush) *)
+Definition mscr_list (st : lst) : list nat :=
+  (fix go (l : list bool) (i : nat) : list nat :=
+     match l with [] => [] | b :: r => if b then i :: go r (S i) else go r (S i) end) (l_mscr st) 0.
+
 Definition active_list (st : lst) : list nat :=
   (fix go (l : list bool) (i : nat) : list nat :=
      match l with [] => [] | b :: r => if b then i :: go r (S i) else go r (S i) end) (l_act st) 0.
